@@ -1090,8 +1090,27 @@ func vWriteFile(name string, data string) string {
 	if err := os.MkdirAll(filepath.Dir(p), 0o755); err != nil {
 		vFault("mkdir: %v", err)
 	}
-	if err := os.WriteFile(p, []byte(data), 0o644); err != nil {
+	// The attributes of a file are part of the input space too (what a file says does not depend on its
+	// permission bits or its time stamps); they are a pure function of the name and the content.
+	_ = os.Remove(p)
+	h := fnv.New32a()
+	_, _ = h.Write([]byte(name))
+	_, _ = h.Write([]byte(data))
+	k := h.Sum32()
+	mode := os.FileMode(0o644)
+	if k%4 == 0 {
+		mode = []os.FileMode{0o664, 0o666, 0o660, 0o600, 0o640, 0o444, 0o755, 0o622}[(k/4)%8]
+	}
+	if err := os.WriteFile(p, []byte(data), mode); err != nil {
 		vFault("write %s: %v", p, err)
+	}
+	_ = os.Chmod(p, mode) // independent of the umask
+	if (k/32)%4 == 0 {
+		at := []time.Time{
+			time.Unix(0, 0), time.Unix(1000000000, 0), time.Date(1985, 10, 26, 1, 21, 0, 0, time.UTC),
+			time.Now().Add(time.Hour), time.Date(2100, 1, 1, 0, 0, 0, 0, time.UTC), time.Now().Add(-48 * time.Hour),
+		}[(k/128)%6]
+		_ = os.Chtimes(p, at, at)
 	}
 	return p
 }
